@@ -334,6 +334,7 @@ pub fn gen_program_w_sized(rng: &mut Rng, cfg: &GenCfg, ntasks: usize, nres: usi
 pub fn gen_history(rng: &mut Rng, prog: &Program, cfg: &GenCfg) -> (Vec<(usize, Val)>, Vec<Step>, BTreeMap<usize, StepFault>) {
   let nres = prog.resources.len();
   let ntasks = prog.tasks.len();
+  let has_mode = prog.tasks.iter().all(|t| matches!(t.ops.first(), Some(Op::Switch { .. })));
   let mut init = vec![];
   let init_pct = rng.range(40, 90);
   for r in 0..nres { if rng.chance(init_pct) { init.push((r, rng.below(NVALS as u64) as Val)); } }
@@ -359,7 +360,7 @@ pub fn gen_history(rng: &mut Rng, prog: &Program, cfg: &GenCfg) -> (Vec<(usize, 
         let burst = if cfg.big { rng.range(1, 3) } else { 1 };
         for _ in 0..burst {
           let mut res = rng.below(nres as u64) as usize;
-          if prog.class == Class::V && rng.chance(40) { res = nres - 1; }
+          if has_mode && rng.chance(40) { res = nres - 1; }
           match rng.below(10) {
             0 => steps.push(Step::Touch { res }),
             1..=2 => steps.push(Step::Change { res, val: None }),
@@ -428,6 +429,12 @@ fn reads_of(ops: &[Op], out: &mut Vec<(usize, RK)>) {
 pub fn gen_program_x(rng: &mut Rng, cfg: &GenCfg, want: u64) -> Program {
   let mut p = gen_program_w(rng, cfg);
   p.class = Class::X;
+  inject_x(rng, &mut p, want);
+  p
+}
+
+/// Injects one potential violation into a class-W (sub-)program.
+pub fn inject_x(rng: &mut Rng, p: &mut Program, want: u64) {
   let ntasks = p.tasks.len();
   for _attempt in 0..8 {
     match want {
@@ -447,7 +454,7 @@ pub fn gen_program_x(rng: &mut Rng, cfg: &GenCfg, want: u64) -> Program {
         if let Some(wk) = wchk_of(&p.tasks[w].ops, r) { if !wk.determines_obs(&chk) { chk = wk; } }
         chk = adjust_kind(chk, p.resources[r].fam, true);
         insert_op(rng, &mut p.tasks[t].ops, Op::Read { res: r, chk });
-        return p;
+        return;
       }
       1 => {
         // hidden write: a task writes a resource that another task reads without requiring the new writer
@@ -459,7 +466,7 @@ pub fn gen_program_x(rng: &mut Rng, cfg: &GenCfg, want: u64) -> Program {
         if u == reader { continue; }
         let op = Op::Write { res: r, chk: RK::Exact, k: rng.below(NVALS as u64 + 1) as Val, via: rng.chance(30) };
         insert_op(rng, &mut p.tasks[u].ops, op);
-        return p;
+        return;
       }
       2 => {
         // overlapping write: a second task writes a generated resource
@@ -470,7 +477,39 @@ pub fn gen_program_x(rng: &mut Rng, cfg: &GenCfg, want: u64) -> Program {
         if u == w { continue; }
         let op = Op::Write { res: r, chk: RK::Exact, k: rng.below(NVALS as u64 + 1) as Val, via: rng.chance(30) };
         insert_op(rng, &mut p.tasks[u].ops, op);
-        return p;
+        return;
+      }
+      4 => {
+        // un-dominated read: the require of the writer that dominates a read of a generated resource becomes
+        // value-dependent, so the read is hidden in some states only (and the records of an earlier state still
+        // contain the require)
+        let mut cands: Vec<(Tid, usize)> = vec![];
+        for (t, td) in p.tasks.iter().enumerate() {
+          for (i, op) in td.ops.iter().enumerate() {
+            if let Op::Require { task, .. } = op {
+              let feeds = td.ops[i + 1..].iter().any(|o| { let mut v = vec![]; reads_of(std::slice::from_ref(o), &mut v); v.iter().any(|(r, _)| p.writer.get(r) == Some(task)) });
+              if feeds { cands.push((t, i)); }
+            }
+          }
+        }
+        if cands.is_empty() { return inject_x(rng, p, 0); }
+        let (t, i) = *rng.pick(&cands);
+        let req = p.tasks[t].ops[i].clone();
+        let modulus = rng.range(2, 3) as Val;
+        let guarded = Op::If { m: rng.below(modulus as u64) as Val, modulus, then: vec![req], els: vec![] };
+        p.tasks[t].ops[i] = guarded;
+        // Something must be observed before the guard, else it is constant.
+        if i == 0 || rng.chance(50) {
+          let srcs: Vec<usize> = (0..p.resources.len()).filter(|r| !p.writer.contains_key(r)).collect();
+          if !srcs.is_empty() {
+            let r = *rng.pick(&srcs);
+            let mut existing = vec![]; reads_of(&p.tasks[t].ops, &mut existing);
+            let chk = existing.iter().find(|(x, _)| *x == r).map(|(_, k)| *k).unwrap_or(RK::Exact);
+            let chk = adjust_kind(chk, p.resources[r].fam, false);
+            p.tasks[t].ops.insert(0, Op::Read { res: r, chk });
+          }
+        }
+        return;
       }
       _ => {
         // back-require closing a cycle of length 1..n
@@ -478,11 +517,10 @@ pub fn gen_program_x(rng: &mut Rng, cfg: &GenCfg, want: u64) -> Program {
         let a = rng.below(b as u64 + 1) as usize;
         let chk = pick_ok(rng, p.exact_only);
         insert_op(rng, &mut p.tasks[b].ops, Op::Require { task: a, chk });
-        return p;
+        return;
       }
     }
   }
-  p
 }
 
 /// Class M: a class-W program in which one task declares a second dependency on one target with a different checker.
@@ -520,15 +558,27 @@ fn remap_tasks(ops: &[Op], perm: &[usize]) -> Vec<Op> {
 /// Class V: two or three class-W sub-programs over the same task and resource ids with different role assignments
 /// (who writes a resource, who reads it, who requires whom), selected by a mode resource that every task reads first.
 /// Every single state is violation-free.
-pub fn gen_program_v(rng: &mut Rng, cfg: &GenCfg) -> Program {
+pub fn gen_program_v(rng: &mut Rng, cfg: &GenCfg) -> Program { gen_program_v_inj(rng, cfg, None) }
+
+/// Class X over dynamic roles: as class V, but one of the sub-programs carries one injected potential violation
+/// (`inject_x`), so a violation arises right after the roles of all tasks changed.
+pub fn gen_program_vx(rng: &mut Rng, cfg: &GenCfg, want: u64) -> Program {
+  let mut p = gen_program_v_inj(rng, cfg, Some(want));
+  p.class = Class::X;
+  p
+}
+
+fn gen_program_v_inj(rng: &mut Rng, cfg: &GenCfg, inject: Option<u64>) -> Program {
   let (ntasks, nres) = if cfg.big { (rng.range(4, 7) as usize, rng.range(2, 4) as usize) } else { (rng.range(2, 6) as usize, rng.range(2, 5) as usize) };
   let ncases = rng.range(2, 3) as usize;
   let mut c2 = GenCfg { exact_only_pct: cfg.exact_only_pct, big: cfg.big, ..GenCfg::default() };
   c2.sim_fams_only = cfg.sim_fams_only;
   let base = gen_program_w_sized(rng, &c2, ntasks, nres);
   let mut cases: Vec<Vec<Vec<Op>>> = vec![vec![]; ntasks]; // per task: per case: ops
+  let inject_case = if inject.is_some() { rng.below(ncases as u64) as usize } else { usize::MAX };
   for case in 0..ncases {
-    let sub = if case == 0 { base.clone() } else { let mut p = gen_program_w_sized(rng, &c2, ntasks, nres); p.exact_only = base.exact_only; p };
+    let mut sub = if case == 0 { base.clone() } else { let mut p = gen_program_w_sized(rng, &c2, ntasks, nres); p.exact_only = base.exact_only; p };
+    if case == inject_case { inject_x(rng, &mut sub, inject.unwrap_or(0)); }
     // Random relabelling of the tasks (identity for case 0) inverts require directions between cases.
     let mut perm: Vec<usize> = (0..ntasks).collect();
     if case > 0 { for i in (1..ntasks).rev() { let j = rng.below(i as u64 + 1) as usize; perm.swap(i, j); } }
